@@ -120,7 +120,7 @@ type IdP struct {
 	Scheme string
 	Path   string // path prefix for endpoints
 	// AuthQuery is a query the authorization endpoint itself carries (C13).
-	AuthQuery string
+	AuthQuery  string
 	SharedDisc bool
 	// ServerCA selects which test CA issued the certificate the https server presents (C20).
 	ServerCA int
@@ -487,15 +487,28 @@ func (p *IdP) handleToken(w http.ResponseWriter, r *http.Request) {
 	p.TokenReqs = append(p.TokenReqs, tr)
 	p.mu.Unlock()
 	p.w.noteTokenReq(p, tr)
+	p.w.logf("  idp %s token request grant=%s code=%s task=%s", p.Name, tr.Grant, tr.Code, tr.TaskName)
 
 	sim.Yield("idp:token:in")
 	sim.SetCur(task)
 	if p.Knobs.LatencyUS > 0 {
-		time.Sleep(time.Duration(p.Knobs.LatencyUS) * time.Microsecond)
+		sim.SleepAs(task, time.Duration(p.Knobs.LatencyUS)*time.Microsecond)
 		sim.SetCur(task)
 	}
 
 	fault := p.w.faultAt("idp.token")
+	if fault == "ctx-cancel" {
+		// Envoy gives up on the check while the provider is serving its token request; the provider itself
+		// answers normally
+		fault = ""
+		p.w.mu.Lock()
+		c := p.w.active[tr.Task]
+		p.w.mu.Unlock()
+		if c != nil {
+			c.Faults = c.Faults[:len(c.Faults)-1]
+			c.cancelNow(p.w)
+		}
+	}
 	tr.Fault = fault
 	if fault != "" {
 		p.w.countFault("token-" + fault)
